@@ -4,6 +4,9 @@
 #include "tbfglobal.hpp"
 
 #include "tbfmemorydim.hpp"
+#ifdef TBFMM_VERIF
+#include "utils/tbfverifhooks.hpp"
+#endif
 
 template <class DataType_T, long int NbRows, long int MemoryAlignementBytes = TbfDefaultMemoryAlignement>
 class TbfMemoryMultiRVector{
@@ -62,6 +65,9 @@ public:
                 __device__ __host__
         #endif
         DataType& getItem(const long int inIdx, const long int inIdxRow){
+#ifdef TBFMM_VERIF
+            TbfVerif::CheckViewerBounds("TbfMemoryMultiRVector", inIdx, nbItems, inIdxRow, NbRows);
+#endif
             DataType* ptrToDataRow = reinterpret_cast<DataType*>(reinterpret_cast<unsigned char*>(ptrToData)+ inIdxRow*leadingDim);
             return ptrToDataRow[inIdx];
         }
@@ -90,6 +96,9 @@ public:
                 __device__ __host__
         #endif
         const DataType& getItem(const long int inIdx, const long int inIdxRow){
+#ifdef TBFMM_VERIF
+            TbfVerif::CheckViewerBounds("TbfMemoryMultiRVector", inIdx, nbItems, inIdxRow, NbRows);
+#endif
             const DataType* ptrToDataRow = reinterpret_cast<const DataType*>(reinterpret_cast<const unsigned char*>(ptrToData)+ inIdxRow*leadingDim);
             return ptrToDataRow[inIdx];
         }
